@@ -947,6 +947,15 @@ theorem cgood_index {d1 d2 : Nat} {c1 c2 : CP} {v1 v2 : Env → Val} (h1 : CGood
       rw [← hc1 o rfl, ← hc2 i rfl]
     · cases hcc
 
+theorem identsOfList_mem {es : List Ast} {e : Ast} (h : e ∈ es) : ∀ n ∈ identsOf e, n ∈ identsOfList es := by
+  induction es with
+  | nil => cases h
+  | cons x xs ih =>
+    rw [identsOfList]
+    rcases List.mem_cons.mp h with rfl | h
+    · exact fun n hn => List.mem_append_left _ hn
+    · exact fun n hn => List.mem_append_right _ (ih h n hn)
+
 theorem evalSpecList_irr {ids : List Str} {args : List Ast} (hargs : ∀ a ∈ args, Irr B (identsOf a) (evalSpec B a))
     (hsub : ∀ n ∈ identsOfList args, n ∈ ids) {e1 e2 : Env} (h : AgreeOn B ids e1 e2) :
     evalSpecList B args e1 = evalSpecList B args e2 := by
@@ -962,7 +971,34 @@ theorem evalSpecList_irr {ids : List Str} {args : List Ast} (hargs : ∀ a ∈ a
 theorem evalSpecMacro_irr {ids : List Str} {args : List Ast} (hargs : ∀ a ∈ args, Irr B (identsOf a) (evalSpec B a))
     (hsub : ∀ n ∈ identsOfList args, n ∈ ids) {e1 e2 : Env} (h : AgreeOn B ids e1 e2) (name : Str) (this : Val) :
     evalSpecMacro B name this args e1 = evalSpecMacro B name this args e2 := by
-  sorry
+  have hA : ∀ a ∈ args, ∀ e1' e2', AgreeOn B ids e1' e2' → evalSpec B a e1' = evalSpec B a e2' :=
+    fun a ha e1' e2' h' => hargs a ha e1' e2' (h'.mono (fun n hn => hsub n (identsOfList_mem ha n hn)))
+  have H0 : ∀ a ∈ args, evalSpec B a e1 = evalSpec B a e2 := fun a ha => hA a ha e1 e2 h
+  have H1 : ∀ a ∈ args, ∀ x v, evalSpec B a (e1.bind x v) = evalSpec B a (e2.bind x v) :=
+    fun a ha x v => hA a ha _ _ (h.bind x v)
+  have H2 : ∀ a ∈ args, ∀ x v y w, evalSpec B a ((e1.bind x v).bind y w) = evalSpec B a ((e2.bind x v).bind y w) :=
+    fun a ha x v y w => hA a ha _ _ ((h.bind x v).bind y w)
+  rcases args with _ | ⟨a, _ | ⟨b, _ | ⟨c, _ | ⟨d, _ | ⟨e, rest⟩⟩⟩⟩⟩
+  · rw [evalSpecMacro.eq_def, evalSpecMacro.eq_def]
+  · have a0 := H0 a (by simp); have a1 := H1 a (by simp)
+    rw [evalSpecMacro.eq_def, evalSpecMacro.eq_def]
+    simp only [a0, a1]
+  · have a0 := H0 a (by simp); have a1 := H1 a (by simp)
+    have b0 := H0 b (by simp); have b1 := H1 b (by simp)
+    rw [evalSpecMacro.eq_def, evalSpecMacro.eq_def]
+    simp only [a0, a1, b0, b1]
+  · have a0 := H0 a (by simp); have a1 := H1 a (by simp)
+    have b0 := H0 b (by simp); have b1 := H1 b (by simp)
+    have c0 := H0 c (by simp); have c1 := H1 c (by simp)
+    rw [evalSpecMacro.eq_def, evalSpecMacro.eq_def]
+    simp only [a0, a1, b0, b1, c0, c1]
+  · have a0 := H0 a (by simp); have a1 := H1 a (by simp); have a2 := H2 a (by simp)
+    have b0 := H0 b (by simp); have b1 := H1 b (by simp); have b2 := H2 b (by simp)
+    have c0 := H0 c (by simp); have c1 := H1 c (by simp)
+    have d0 := H0 d (by simp); have d1 := H1 d (by simp)
+    rw [evalSpecMacro.eq_def, evalSpecMacro.eq_def]
+    simp only [a0, a1, a2, b0, b1, b2, c0, c1, d0, d1]
+  · rw [evalSpecMacro.eq_def, evalSpecMacro.eq_def]
 
 theorem macro_ok (hB : BuiltinsOK B) (name : Str) (args : List Ast) (hargs : ∀ a ∈ args, GoodRun B a)
     (hshape : macroShape B name args = true) : MacroOK B name args := by
@@ -1231,15 +1267,6 @@ theorem irr_match (sp : Span) (s : Ast) (cases : List MCase) (hs : Irr B (idents
       cases htn : typeByName name with
       | none => rw [htn] at this; cases this
       | some ty => simp [resolveIdent, Env.getType, ha.b1, ha.b2, htn]
-
-theorem identsOfList_mem {es : List Ast} {e : Ast} (h : e ∈ es) : ∀ n ∈ identsOf e, n ∈ identsOfList es := by
-  induction es with
-  | nil => cases h
-  | cons x xs ih =>
-    rw [identsOfList]
-    rcases List.mem_cons.mp h with rfl | h
-    · exact fun n hn => List.mem_append_left _ hn
-    · exact fun n hn => List.mem_append_right _ (ih h n hn)
 
 theorem identsOfInits_mem {inits : List MInit} {i : MInit} (h : i ∈ inits) :
     (∀ n ∈ identsOf (initKey i), n ∈ identsOfInits inits) ∧ (∀ n ∈ identsOf (initVal i), n ∈ identsOfInits inits) := by
